@@ -29,6 +29,24 @@ theorem coh_filter (s : State) (ns name : String) (nodes : List String) (ch : Ch
       · rename_i set _
         exact (filterNodes_quiet set nodes [] (getSubnet s pod ch).1).1.coherent key
 
+theorem coh_preempt (s : State) (ns name : String) (nodes : List String) (ch : Choice) (h : Coherent s) :
+    Coherent (preempt s ns name nodes ch).1 := by
+  unfold preempt
+  split
+  · exact h
+  · rename_i pod _
+    split
+    · exact h
+    · have key : Coherent (getSubnet s pod ch).1 := by
+        rcases getSubnet_state s pod ch with e | ⟨resv, n, e⟩
+        · rw [e]; exact h
+        · rw [e]; exact allocateDuringFilter_coherent s _ resv n _ ch.pick h
+      split
+      · exact h
+      · exact key
+      · rename_i set _
+        exact (filterNodes_quiet set nodes [] (getSubnet s pod ch).1).1.coherent key
+
 theorem coh_bindCommit (s : State) (pod : Pod) (ns name : String) (uid : Nat) (node : String) (ips : List IP)
     (h : Coherent s) : Coherent (bindCommit s pod ns name uid node ips).1 := by
   have hb : Coherent (if s.api.2 then s.api.1.api.1 else s.api.1) := by
@@ -42,8 +60,16 @@ theorem coh_bindCommit (s : State) (pod : Pod) (ns name : String) (uid : Nat) (n
     · exact hb
     · exact coherent_of_eq hb rfl rfl rfl rfl
 
-theorem coh_bind (s : State) (ns name : String) (uid : Nat) (node : String) (ch : Choice) (h : Coherent s) :
-    Coherent (bind Facts.good s ns name uid node ch).1 := by
+theorem coh_bindCommitX (s : State) (pod : Pod) (ns name : String) (uid : Nat) (node : String) (ips : List IP)
+    (h : Coherent s) : Coherent (bindCommitX s pod ns name uid node ips).1 := by
+  unfold bindCommitX
+  split
+  · exact coherent_of_eq h rfl rfl rfl rfl
+  · exact coh_bindCommit s pod ns name uid node ips h
+
+/-- Bind without a crash plan (`withFaults` resets `crashMode`) -/
+theorem coh_bind (s : State) (ns name : String) (uid : Nat) (node : String) (ch : Choice) (h : Coherent s)
+    (hcm : s.crashMode = false) : Coherent (bind Facts.good s ns name uid node ch).1 := by
   unfold bind
   split
   · exact h
@@ -71,13 +97,13 @@ theorem coh_bind (s : State) (ns name : String) (uid : Nat) (node : String) (ch 
             have ba := bindAlloc_spec s pod node (policyOf pod) infos ch.pick h hi
             split
             · exact h
-            · exact ba.coherent
+            · exact ba.coherent (Or.inl hcm)
             · have bl := bindLoop_spec (keyOf pod) node { policy := policyOf pod, node := node, uid := pod.uid }
                 (infos.filterMap id)
                 ((bindAlloc s pod node { policy := policyOf pod, node := node, uid := pod.uid } infos ch.pick).2.2.filterMap id)
-                _ ba.coherent
+                _ (ba.coherent (Or.inl hcm))
               split
-              · exact coh_bindCommit _ _ _ _ _ _ _ bl.1
+              · exact coh_bindCommitX _ _ _ _ _ _ _ bl.1
               · exact bl.1
 
 theorem coh_unbind (s : State) (pod : Pod) (h : Coherent s) : Coherent (unbind Facts.good s pod).1 := by
@@ -224,7 +250,8 @@ theorem coh_step (s : State) (m : Move) (h : Coherent s) : Coherent (step Facts.
     · exact coherent_of_eq h rfl rfl rfl rfl
     · exact h
   | filter ns name nodes ch fault => exact coh_filter _ ns name nodes ch (coh_withFaults s fault 0 h)
-  | bind ns name uid node ch f pf => exact coh_bind _ ns name uid node ch (coh_withFaults s f pf h)
+  | preempt ns name nodes ch fault => exact coh_preempt _ ns name nodes ch (coh_withFaults s fault 0 h)
+  | bind ns name uid node ch f pf => exact coh_bind _ ns name uid node ch (coh_withFaults s f pf h) rfl
   | deliver i f pf => exact coh_deliver _ i (coh_withFaults s f pf h)
   | resync order f pf => exact coh_resync _ order (coh_withFaults s f pf h)
   | resyncSnap => exact coherent_of_eq h rfl rfl rfl rfl
@@ -232,7 +259,26 @@ theorem coh_step (s : State) (m : Move) (h : Coherent s) : Coherent (step Facts.
     simp only [step]
     split
     · exact h
-    · exact coherent_of_eq (resyncOne_shr _ ip _ (coh_withFaults s f pf h)).1 rfl rfl rfl rfl
+    · split
+      · exact h
+      · exact coherent_of_eq (resyncOne_shr _ ip _ (coh_withFaults s f pf h)).1 rfl rfl rfl rfl
+  | adminReserve ip text policy =>
+    simp only [step]
+    split
+    · exact h
+    · split
+      · exact h
+      · rename_i hfree
+        have hin : ip ∈ s.free := by simpa using hfree
+        exact coherent_alloc ip _ h hin rfl rfl rfl rfl
+  | adminUnreserve ip =>
+    simp only [step]
+    split
+    · exact h
+    · rename_i r0 ha
+      split
+      · exact h
+      · exact coherent_erase ip r0 h ha rfl rfl rfl rfl
   | syncPodIPs f => exact coh_syncPods _ _ (coh_withFaults s f 0 h)
   | apiRelease ip k f pf => exact coh_apiRelease _ ip k (coh_withFaults s f pf h)
   | reload pools fault => exact coh_reload _ pools (coh_withFaults s fault 0 h)
